@@ -67,6 +67,7 @@ class Bag(N):
     mlc: Meta[List[N]] = []
     lp: Meta[Optional[List[Path]]]
     le: Param[Optional[List[Color]]]
+    ddd: Param[Optional[Dict[str, Dict[str, Dict[str, int]]]]]
 
 
 class Req(N):
@@ -158,5 +159,34 @@ class V2(N):
     g: Annotated[Path, pathgenerator("g.txt")]
 
 
-CLASSES = {c.__name__: c for c in [Leaf, Inner, Bag, Req, TaskA, TaskOut, Pre, Init, NewL, OldL, NewT, OldT, V1, V2]}
+# ---- constants / type identifiers (C03) -------------------------------------
+class K1(N):
+    __xpmid__ = "vpk.schema.k"
+    x: Param[int] = 0
+    k: Constant[int] = 1
+
+
+class K2(N):
+    __xpmid__ = "vpk.schema.k"
+    x: Param[int] = 0
+    k: Constant[int] = 2
+
+
+class W1(N):
+    x: Param[int] = 0
+    c: Param[Optional[N]]
+
+
+class W2(N):
+    x: Param[int] = 0
+    c: Param[Optional[N]]
+
+
+class S2(N):
+    """two sibling strings (the unterminated-string collision family)"""
+    a: Param[str]
+    b: Param[str] = ""
+
+
+CLASSES = {c.__name__: c for c in [K1, K2, W1, W2, S2, Leaf, Inner, Bag, Req, TaskA, TaskOut, Pre, Init, NewL, OldL, NewT, OldT, V1, V2]}
 ENUMS = {"Color": Color, "Shape": Shape}
